@@ -196,6 +196,48 @@ def apply_transform(root: str, spec) -> str | None:
             with open(p, 'w', encoding='utf-8') as f:
                 f.write(ast.unparse(tree) + '\n')
         return None
+    if kind == 'expand-augassign':
+        # `x += e` -> `x = x + e` for plain names and attribute/subscript targets without side effects in the target
+        class Aug(ast.NodeTransformer):
+            def visit_AugAssign(self, n):
+                t = n.target
+                pure = isinstance(t, ast.Name) or (isinstance(t, ast.Attribute) and isinstance(t.value, ast.Name)) or \
+                    (isinstance(t, ast.Subscript) and isinstance(t.value, ast.Name) and
+                     isinstance(t.slice, (ast.Name, ast.Constant)))
+                if not pure:
+                    return n
+                import copy as _c
+                load = _c.deepcopy(t)
+                for x in ast.walk(load):
+                    if hasattr(x, 'ctx') and x is load:
+                        x.ctx = ast.Load()
+                load.ctx = ast.Load()
+                return ast.copy_location(ast.Assign(targets=[t], value=ast.BinOp(left=load, op=n.op, right=n.value)), n)
+        for rel in spec[1]:
+            p = os.path.join(root, rel)
+            tree = Aug().visit(ast.parse(open(p, encoding='utf-8').read()))
+            ast.fix_missing_locations(tree)
+            with open(p, 'w', encoding='utf-8') as f:
+                f.write(ast.unparse(tree) + '\n')
+        return None
+    if kind == 'flip-order-comparisons':
+        # `a < b` -> `b > a` (single-operator order comparisons only)
+        flip = {ast.Lt: ast.Gt, ast.LtE: ast.GtE, ast.Gt: ast.Lt, ast.GtE: ast.LtE}
+
+        class Fl(ast.NodeTransformer):
+            def visit_Compare(self, n):
+                self.generic_visit(n)
+                if len(n.ops) == 1 and type(n.ops[0]) in flip:
+                    return ast.copy_location(ast.Compare(left=n.comparators[0], ops=[flip[type(n.ops[0])]()],
+                                                         comparators=[n.left]), n)
+                return n
+        for rel in spec[1]:
+            p = os.path.join(root, rel)
+            tree = Fl().visit(ast.parse(open(p, encoding='utf-8').read()))
+            ast.fix_missing_locations(tree)
+            with open(p, 'w', encoding='utf-8') as f:
+                f.write(ast.unparse(tree) + '\n')
+        return None
     if kind == 'rename':
         p = os.path.join(root, spec[1])
         src = open(p, encoding='utf-8').read()
